@@ -157,6 +157,8 @@ class Evaluator:
                     return None
         if not _pure_shape(h.body):
             return None
+        if not any(isinstance(b, ast.If) for b in h.body):
+            return None     # a plain getter stays the call it is
         sub = Evaluator(self.ctx, self.decide, self.depth - 1)
         outs = sub.walk(h, h.body, bind)
         if not outs or any(o.opaque or o.stores or not o.returned or o.ret is None
